@@ -51,7 +51,7 @@ func (c13) Runs(t Tier) int {
 }
 func (c13) RecordWidths() map[string]int { return map[string]int{"corrupt": 4} }
 func (c13) RequiredProbes() []string {
-	return []string{"bitflip", "truncate", "extend", "misdirected", "type-rewrite", "fanout-rewrite", "fanout-mismatch-parent-child", "bitfield-longer", "bitfield-shorter", "hashtype-rewrite", "filesize-rewrite", "blocksizes-rewrite", "name-absent", "name-short", "name-duplicate", "tsize-absent", "corrupt-at-kth-read", "decoder-bytes", "op-error", "op-ok-despite-corruption"}
+	return []string{"bitflip", "truncate", "extend", "misdirected", "type-rewrite", "fanout-rewrite", "fanout-mismatch-parent-child", "bitfield-longer", "bitfield-shorter", "hashtype-rewrite", "filesize-rewrite", "blocksizes-rewrite", "name-absent", "name-short", "name-duplicate", "tsize-absent", "corrupt-at-kth-read", "deep-shard-chain", "decoder-bytes", "op-error", "op-ok-despite-corruption"}
 }
 
 type c13Scenario struct {
@@ -220,10 +220,11 @@ func corruptBlock(res *Result, st *store.Store, info map[string]*blockInfo, orde
 		}
 		switch a % 5 {
 		case 0:
-			n := int(u.Fanout/8) + 1 + int(b%40)
-			if n > 4096 {
-				n = 4096
+			fb := u.Fanout / 8
+			if fb > 4000 {
+				fb = 4000
 			}
+			n := int(fb) + 1 + int(b%40)
 			bf := make([]byte, n)
 			r := tape.NewSplitMix(b)
 			for i := range bf {
@@ -244,10 +245,11 @@ func corruptBlock(res *Result, st *store.Store, info map[string]*blockInfo, orde
 			res.probe("bitfield-shorter")
 			desc = "bitfield absent"
 		case 3: // all ones: more bits than links
-			bf := make([]byte, (u.Fanout+7)/8)
-			if len(bf) > 4096 {
-				bf = bf[:4096]
+			nb := (u.Fanout + 7) / 8
+			if nb > 4096 || nb == 0 {
+				nb = 4096
 			}
+			bf := make([]byte, nb)
 			for i := range bf {
 				bf[i] = 0xff
 			}
@@ -440,7 +442,26 @@ func (c13) Run(ts *tape.Set, tier Tier) *Result {
 	res.Scenario = sc
 	var root cid.Cid
 	var names []string
-	if isDir {
+	deepChain := isDir && shape.Intn(8) == 0
+	if deepChain {
+		// a hand-made hostile directory: a shard chain deeper than the hash
+		// has bits; lookups of the name must end in an error
+		fan := []int{8, 16, 32, 64, 128, 256, 512, 1024}[shape.Intn(8)]
+		w := 0
+		for 1<<uint(w) < fan {
+			w++
+		}
+		limit := 64 / w
+		depth := limit - 1 + shape.Intn(4) // around the addressable limit
+		if depth < 1 {
+			depth = 1
+		}
+		name := fmt.Sprintf("deep%d", shape.Intn(1000))
+		root = gen.WriteDeepShardChain(st, fan, depth, name)
+		names = []string{name}
+		sc.Kind, sc.Spec = "dir", fmt.Sprintf("hand-made shard chain fanout=%d depth=%d (hash addresses %d levels)", fan, depth, limit)
+		res.probe("deep-shard-chain")
+	} else if isDir {
 		spec := gen.DrawDirSpec(shape, gen.DirOpts{MaxN: 60})
 		r, entries, err := gen.WriteShardedDir(st, spec)
 		if err != nil {
@@ -525,9 +546,17 @@ func (c13) Run(ts *tape.Set, tier Tier) *Result {
 		}
 		payloads = append(payloads, nb)
 	}
-	if len(replace) == 0 {
+	if len(replace) == 0 && !deepChain {
 		res.Skipped, res.SkipReason = true, "no corruption applicable"
 		return res
+	}
+	if deepChain {
+		res.NonTrivial = true
+		if shape.Intn(2) == 0 {
+			// the pure hand-made DAG, no further corruption
+			replace = map[string][]byte{}
+			sc.Corruptions = nil
+		}
 	}
 
 	delivered := 0
